@@ -8,6 +8,69 @@ def _dup(ln):
     toks = [e.rsplit(".", 1)[0] for e in f[2].split(",")]
     return len(set(toks)) != len(toks)
 
+def _racks(nodes, ring):
+    """distinct racks ('no rack' counts) per datacenter among token-owning nodes"""
+    owners = {e.rsplit(".", 1)[1] for e in ring.split(",")} if ring != "-" else set()
+    racks = {}
+    for n in nodes.split(","):
+        i, d, r = n.split(".")
+        if d != "_" and i in owners:
+            racks.setdefault(d, set()).add(r)
+    return {d: len(v) for d, v in racks.items()}
+
+def _paths(lines):
+    """how the NTS per-datacenter lookups of the queries are served (from the case text)"""
+    c = {"nts_true_prefix": 0, "nts_between_rack_count_and_stored_rf": 0, "rackless_and_racked_in_one_dc": 0}
+    cache = {}
+    for ln in lines:
+        f = ln.split(" ")
+        if len(f) < 7 or f[4][0] != "N":
+            continue
+        key = (f[1], f[2])
+        if key not in cache:
+            racks = _racks(f[1], f[2])
+            mixed = False
+            per = {}
+            for n in f[1].split(","):
+                _, d, r = n.split(".")
+                per.setdefault(d, set()).add(r == "_")
+            mixed = any(len(v) == 2 for d, v in per.items() if d != "_")
+            cache[key] = (racks, mixed)
+        racks, mixed = cache[key]
+        c["rackless_and_racked_in_one_dc"] += mixed
+        stored = {}
+        for st in f[3].split(";"):
+            if st.startswith("N"):
+                for e in st[1:].split("+"):
+                    if e:
+                        d, rf = e.split("="); stored.setdefault(d, set()).add(int(rf, 16))
+        for e in f[4][1:].split("+"):
+            if not e:
+                continue
+            d, rf = e.split("="); rf = int(rf, 16); rc = racks.get(d, 0)
+            if rf == 0 or rc == 0 or (f[5] != "_" and f[5] != d):
+                continue
+            sto = stored.get(d, set())
+            comp = max([x for x in sto if x <= rc], default=None)
+            if comp is not None and rf < comp and rf not in sto:
+                c["nts_true_prefix"] += 1
+            if rf > rc and rf not in sto and any(x > rf for x in sto):
+                c["nts_between_rack_count_and_stored_rf"] += 1
+    return c
+
+def _post(lines, verdicts):
+    out = []
+    member_only = sum(1 for ln in lines if " M:" in ln.split("|", 1)[-1])
+    if member_only > max(5, len(lines) // 1000):
+        out.append(("diff", lines[0], f"diff choose index not scripted on {member_only} lines (rand calibration failed): choose checked by membership only"))
+    if len(lines) >= 20000:
+        c = _paths(lines)
+        for k, floor in (("nts_true_prefix", len(lines) // 50), ("nts_between_rack_count_and_stored_rf", len(lines) // 200),
+                         ("rackless_and_racked_in_one_dc", len(lines) // 100)):
+            if c[k] < floor:
+                out.append(("diff", lines[0], f"diff generator floor: {k}={c[k]} < {floor}"))
+    return out
+
 def _extra(lines, verdicts):
     strat = {"S": 0, "N": 0, "L": 0, "O": 0}
     restricted = 0
@@ -20,14 +83,20 @@ def _extra(lines, verdicts):
             restricted += f[5] != "_"
             rings.add((f[1], f[2], f[3]))
             dup += _dup(ln)
-    return {"query_strategy_kinds": strat, "datacenter_restricted_queries": restricted,
+    paths = _paths(lines)
+    member_only = sum(1 for ln in lines if " M:" in ln.split("|", 1)[-1])
+    return {"nts_lookup_paths": paths, "choose_membership_only_lines": member_only,
+            "choose_exact_index_lines": len(lines) - member_only,
+            "query_strategy_kinds": strat, "datacenter_restricted_queries": restricted,
             "distinct_ring_and_precomputation_sets": len(rings), "queries_on_rings_with_a_repeated_token": dup}
 
 SPEC = {
     "pid": "C04",
     "coq_targets": ["Props/C04.vo", "Extract/ExC04.vo"],
     "bin": "c04",
-    "sizes": {"quick": 150000, "thorough": 6000000},
+    "sizes": {"quick": 150000, "thorough": 1500000},
+    "min_cases": {"quick": 140000, "thorough": 1400000},
+    "post": _post,
     "search_n": 400000,
     "rule": ("seeded topologies: 1..12 nodes x 1..3 datacenters x 1..4 racks (datacenter-less and rack-less nodes, "
              "nodes without tokens, 1..8 vnodes, 1 ring in 6 with a token shared by nodes of different datacenters), "
@@ -36,12 +105,12 @@ SPEC = {
              "ones x {unrestricted, every ring datacenter, absent datacenters} x every ring token, token-1, token+1 and the "
              "extremes (quick tier: 10 token points per ring sampled, thorough: 120, restricted queries sampled 1 in 3). One line = one "
              "(ring, precomputed set, strategy, restriction, token) with len, into_iter, nth(0..len+1), choose for every "
-             "scripted index, choose_filtered, into_replicas_ordered, get_token_endpoints and the answer of a ClusterState "
+             "scripted index, choose_filtered, into_replicas_ordered, get_token_endpoints, three interleavings of next()/nth(n) and the answer of a ClusterState "
              "built without keyspaces. non-trivial = ring not empty; distinct = distinct case lines"),
     "nontrivial": lambda ln: " - " not in ln.split("|")[0][:40] and len(ln.split(" ")) > 6 and ln.split(" ")[2] != "-",
     "trusted_base": [
         "spec_simple / spec_nts_dc / spec_nts are the placement rules transcribed from the property text (SimpleStrategy: first RF distinct nodes clockwise; NTS: per datacenter, rack new or repeats allowed, until min(RF, nodes))",
-        "hook scylla::cluster::verif_state::cluster_state (ClusterState::new's steps with pool-less Node objects) and scylla::routing::verif_locator::choose_filtered (scripted rand draws)",
+        "hook scylla::cluster::verif_state::cluster_state_via_new (the real ClusterState::new on a Metadata value with a reject-all host filter: pool-less nodes) and scylla::routing::verif_locator::choose_filtered (scripted rand draws; lines whose index could not be scripted are counted and capped)",
     ],
     "assumptions": [
         "the only hypothesis on the ring is sorted_weak (what TokenRing::new produces, C04_ring); tokens may repeat: the walk starts at the first member with token >= t and members sharing a token keep insertion order",
